@@ -225,6 +225,46 @@ Fixpoint parse_dirs (fuel : nat) (ts : list ptoken) (acc : list directive) : res
 Definition is_on (t : ptoken) : bool :=
   is_kind KIdent t && match keyword_of (plit t) with IKOn => true | _ => false end.
 
+(* what follows a field's name: arguments, directives, selection set ([selset] is the recursive call) *)
+Definition field_tail (selset : list ptoken -> res (list selection)) (f : nat)
+    (alias : option name) (nm : name) (r1 : list ptoken) : res selection :=
+  match parse_opt_args f r1 with
+  | Ok args r2 =>
+    match parse_dirs f r2 [] with
+    | Ok dirs r3 =>
+      match r3 with
+      | b :: _ =>
+        if is_kind KLBrace b then
+          match selset r3 with
+          | Ok sels r4 => Ok (SField alias nm args dirs sels) r4
+          | Err => Err | Unsup => Unsup | Oof => Oof
+          end
+        else Ok (SField alias nm args dirs []) r3
+      | [] => Ok (SField alias nm args dirs []) r3
+      end
+    | Err => Err | Unsup => Unsup | Oof => Oof
+    end
+  | Err => Err | Unsup => Unsup | Oof => Oof
+  end.
+
+(* parseInlineFragment after the optional type condition: directives, selection set *)
+Definition inline_tail (selset : list ptoken -> res (list selection)) (f : nat)
+    (tc : option name) (r1 : list ptoken) : res selection :=
+  match parse_dirs f r1 [] with
+  | Ok dirs r2 =>
+    match r2 with
+    | b :: _ =>
+      if is_kind KLBrace b then
+        match selset r2 with
+        | Ok sels r3 => Ok (SInline tc dirs sels) r3
+        | Err => Err | Unsup => Unsup | Oof => Oof
+        end
+      else Ok (SInline tc dirs []) r2
+    | [] => Ok (SInline tc dirs []) r2
+    end
+  | Err => Err | Unsup => Unsup | Oof => Oof
+  end.
+
 (* parse_selset: mustRead LBRACE + loop;  parse_sels: the loop;  parse_field / parse_frag_sel *)
 Fixpoint parse_selset (fuel : nat) (ts : list ptoken) : res (list selection) :=
   match fuel with O => Oof | S f =>
@@ -257,61 +297,27 @@ with parse_field (fuel : nat) (ts : list ptoken) : res selection :=
   | [] => Err
   | t :: r =>
     if negb (is_kind KIdent t) then Err else
-    let after_name (alias : option name) (nm : name) (r1 : list ptoken) : res selection :=
-      match parse_opt_args f r1 with
-      | Ok args r2 =>
-        match parse_dirs f r2 [] with
-        | Ok dirs r3 =>
-          match r3 with
-          | b :: _ =>
-            if is_kind KLBrace b then
-              match parse_selset f r3 with
-              | Ok sels r4 => Ok (SField alias nm args dirs sels) r4
-              | Err => Err | Unsup => Unsup | Oof => Oof
-              end
-            else Ok (SField alias nm args dirs []) r3
-          | [] => Ok (SField alias nm args dirs []) r3
-          end
-        | Err => Err | Unsup => Unsup | Oof => Oof
-        end
-      | Err => Err | Unsup => Unsup | Oof => Oof
-      end in
     match r with
     | c :: r1 =>
       if is_kind KColon c then
         match r1 with
-        | n :: r2 => if is_kind KIdent n then after_name (Some (plit t)) (plit n) r2 else Err
+        | n :: r2 => if is_kind KIdent n then field_tail (parse_selset f) f (Some (plit t)) (plit n) r2 else Err
         | [] => Err
         end
-      else after_name None (plit t) r
-    | [] => after_name None (plit t) r
+      else field_tail (parse_selset f) f None (plit t) r
+    | [] => field_tail (parse_selset f) f None (plit t) r
     end
   end end
 with parse_frag_sel (fuel : nat) (ts : list ptoken) : res selection :=   (* after the SPREAD *)
   match fuel with O => Oof | S f =>
-  let inline (tc : option name) (r1 : list ptoken) : res selection :=
-    match parse_dirs f r1 [] with
-    | Ok dirs r2 =>
-      match r2 with
-      | b :: _ =>
-        if is_kind KLBrace b then
-          match parse_selset f r2 with
-          | Ok sels r3 => Ok (SInline tc dirs sels) r3
-          | Err => Err | Unsup => Unsup | Oof => Oof
-          end
-        else Ok (SInline tc dirs []) r2
-      | [] => Ok (SInline tc dirs []) r2
-      end
-    | Err => Err | Unsup => Unsup | Oof => Oof
-    end in
   match ts with
   | [] => Err
   | t :: r =>
-    if is_kind KLBrace t || is_kind KAt t then inline None ts
+    if is_kind KLBrace t || is_kind KAt t then inline_tail (parse_selset f) f None ts
     else if is_kind KIdent t then
       if is_on t then
         match r with
-        | n :: r1 => if is_kind KIdent n then inline (Some (plit n)) r1 else Err
+        | n :: r1 => if is_kind KIdent n then inline_tail (parse_selset f) f (Some (plit n)) r1 else Err
         | [] => Err
         end
       else
